@@ -144,7 +144,13 @@ macro_rules! Header {
                     $(
                         $name_bytes | $lower_case $(| $other_pattern)* => Some(Self::$konst),
                     )*
-                    _ => None
+                    _ => {
+                        // field names are case-insensitive
+                        $(
+                            if bytes.eq_ignore_ascii_case($name_bytes) {return Some(Self::$konst)}
+                        )*
+                        None
+                    }
                 }
             }
         }
